@@ -41,7 +41,7 @@ claim("C01", "DESIGN.md 6 C01",
       "16 theorems: selective strategy - after a Pending return, a child that is awaited, was polled, last answered Pending and whose waker fired implies the newest "
       "parent waker was woken (join/try_join slice+tuple, merge, zip, FutureGroup, StreamGroup), plus quiescence (no wake outstanding => every awaited child polled and "
       "unsignalled); non-selective strategy and race/race_ok/chain/wait_until - every waker ever handed out is the parent waker of that poll and firing it wakes that parent. "
-      "C01_join_resolves_under_wake_driven_executor: under an executor that fires every child's most recent waker and then polls, a join of n>=1 Pending*-then-Ready children returns its positional result within (longest script) rounds and never unwinds; C01_merge_first_result_under_wake_driven_executor: the stream form for merge (first item or end within that many rounds). "
+      "C01_join_resolves_under_wake_driven_executor: under an executor that fires every child's most recent waker and then polls, a join of n>=1 Pending*-then-Ready children returns its positional result within (longest script) rounds and never unwinds; C01_join_family_returns_... (join and try_join), C01_merge_next_result_... and C01_zip_next_result_...: the stream form, from every reachable state (next item / row or the end within B rounds). "
       "C01_*_trace restate it over the observable trace (bookkeeping recomputed from the events); C01_fire_total_*: every handle ever handed out names an existing slot, so firing it never fails. "
       "Nests of combinators are covered by universality (an inner combinator is an arbitrary child, a sub-waker an arbitrary parent) and instantiated by the harness in monitor-only suites. "
       "Partial: real thread interleavings are represented by the lock windows of the model (a wake is atomic with respect to a poll's critical sections); the thorough tier exercises that assumption with real threads (mt-harness: 40 000 cases, every Pending child woken from a second OS thread, hang / panic / wrong result reported)." + COMMON)
